@@ -26,11 +26,25 @@ func init() { RegisterSub("C09", "merge", RunC09) }
 
 // ---------------------------------------------------------------- case description
 
-type c09Col struct{ Opt, Desc, NF bool } // nullable, descending, nulls first
+// nullable, descending, nulls first; Wrap: 0 = the key is the top-level leaf k<j>, 1 = it is the leaf
+// k<j>.v of an OPTIONAL group k<j> (one more definition level: a null key has the group absent, def 0,
+// or the group present and the leaf null, def max-1), 2 = leaf k<j>.v of a required group
+type c09Col struct {
+	Opt, Desc, NF bool
+	Wrap          int
+}
+
+func (col c09Col) path() []string {
+	if col.Wrap != 0 {
+		return []string{"", "v"}
+	}
+	return []string{""}
+}
 
 type c09Row struct {
 	K        [3]int64
 	Null     [3]bool
+	GNull    [3]bool // Wrap = 1: the enclosing group is absent (implies Null)
 	Inp, Seq int32
 }
 
@@ -68,7 +82,9 @@ func (r c09Row) keyText(ncols int) string {
 		if j > 0 {
 			sb.WriteByte(';')
 		}
-		if r.Null[j] {
+		if r.GNull[j] {
+			sb.WriteByte('N')
+		} else if r.Null[j] {
 			sb.WriteByte('n')
 		} else {
 			sb.WriteString(strconv.FormatInt(r.K[j], 10))
@@ -80,6 +96,10 @@ func (r c09Row) keyText(ncols int) string {
 func (c *c09Case) canon() string {
 	var sb strings.Builder
 	for _, col := range c.Cols {
+		if col.Wrap != 0 {
+			fmt.Fprintf(&sb, "col(opt=%v,desc=%v,nf=%v,wrap=%d) ", col.Opt, col.Desc, col.NF, col.Wrap)
+			continue
+		}
 		fmt.Fprintf(&sb, "col(opt=%v,desc=%v,nf=%v) ", col.Opt, col.Desc, col.NF)
 	}
 	fmt.Fprintf(&sb, "mcols=%d storage=%s pagebuf=%d batches=%v dedupe=%v path=%s lists=%v seeks=%v ", c.MCols, c.Storage, c.PageBuf, c.Batches, c.Dedupe, c.Path, c.Lists, c.Seeks)
@@ -155,6 +175,12 @@ func c09SchemaL(cols []c09Col, lists bool) *parquet.Schema {
 		if col.Opt {
 			n = parquet.Optional(n)
 		}
+		switch col.Wrap {
+		case 1:
+			n = parquet.Optional(parquet.Group{"v": n})
+		case 2:
+			n = parquet.Group{"v": n}
+		}
 		g["k"+strconv.Itoa(j)] = n
 	}
 	return parquet.NewSchema("c09", g)
@@ -181,10 +207,12 @@ func c09Sorting(cols []c09Col, n int) []parquet.SortingColumn {
 	var out []parquet.SortingColumn
 	for j := 0; j < n; j++ {
 		var sc parquet.SortingColumn
+		path := cols[j].path()
+		path[0] = "k" + strconv.Itoa(j)
 		if cols[j].Desc {
-			sc = parquet.Descending("k" + strconv.Itoa(j))
+			sc = parquet.Descending(path...)
 		} else {
-			sc = parquet.Ascending("k" + strconv.Itoa(j))
+			sc = parquet.Ascending(path...)
 		}
 		if cols[j].NF {
 			sc = parquet.NullsFirst(sc)
@@ -214,13 +242,20 @@ func c09ToRowL(cols []c09Col, r c09Row, lists bool) parquet.Row {
 		}
 	}
 	for j, col := range cols {
+		maxDef := 0
+		if col.Opt {
+			maxDef++
+		}
+		if col.Wrap == 1 {
+			maxDef++
+		}
 		switch {
-		case !col.Opt:
-			row = append(row, parquet.Int64Value(r.K[j]).Level(0, 0, j+off))
-		case r.Null[j]:
+		case r.GNull[j] && col.Wrap == 1:
 			row = append(row, parquet.Value{}.Level(0, 0, j+off))
+		case r.Null[j] && col.Opt:
+			row = append(row, parquet.Value{}.Level(0, maxDef-1, j+off))
 		default:
-			row = append(row, parquet.Int64Value(r.K[j]).Level(0, 1, j+off))
+			row = append(row, parquet.Int64Value(r.K[j]).Level(0, maxDef, j+off))
 		}
 	}
 	row = append(row, parquet.Int32Value(r.Inp).Level(0, 0, len(cols)+off))
@@ -231,6 +266,20 @@ func c09ToRowL(cols []c09Col, r c09Row, lists bool) parquet.Row {
 func c09FromRow(ncols int, row parquet.Row) (c09Row, error) { return c09FromRowL(ncols, row, false) }
 
 func c09FromRowL(ncols int, row parquet.Row, lists bool) (c09Row, error) {
+	return c09FromRowW(ncols, 0, row, lists)
+}
+
+// bit j of the result: key column j sits in an optional group
+func c09WrapMask(cols []c09Col) (m uint) {
+	for j, col := range cols {
+		if col.Wrap == 1 {
+			m |= 1 << j
+		}
+	}
+	return m
+}
+
+func c09FromRowW(ncols int, wrapped uint, row parquet.Row, lists bool) (c09Row, error) {
 	var r c09Row
 	off := 0
 	var list []int32
@@ -253,6 +302,7 @@ func c09FromRowL(ncols int, row parquet.Row, lists bool) (c09Row, error) {
 		case c < ncols:
 			if v.IsNull() {
 				r.Null[c] = true
+				r.GNull[c] = wrapped&(1<<c) != 0 && v.DefinitionLevel() == 0
 			} else {
 				r.K[c] = v.Int64()
 			}
@@ -355,7 +405,7 @@ func c09Drain(c *c09Case, rr parquet.RowReader, limit int) ([]c09Row, [][2]int, 
 			return out, calls, fmt.Errorf("ReadRows returned n=%d for a buffer of %d", n, b)
 		}
 		for _, row := range buf[:n] {
-			r, derr := c09FromRowL(len(c.Cols), row, c.Lists)
+			r, derr := c09FromRowW(len(c.Cols), c09WrapMask(c.Cols), row, c.Lists)
 			if derr != nil {
 				return out, calls, derr
 			}
@@ -414,7 +464,7 @@ func c09DrainSeek(c *c09Case, rows parquet.Rows, limit int) (out []c09Pos, eofAt
 				return
 			}
 			for _, row := range buf[:n] {
-				rw, derr := c09FromRowL(len(c.Cols), row, c.Lists)
+				rw, derr := c09FromRowW(len(c.Cols), c09WrapMask(c.Cols), row, c.Lists)
 				if derr != nil {
 					r.err = derr
 					return
@@ -1089,13 +1139,18 @@ func c09Oracle(c *c09Case, out []c09Row) (key, what string) {
 			return "dedupe-left-duplicate", fmt.Sprintf("rows %d and %d have the same sort key %s", i-1, i, out[i].keyText(n))
 		}
 	}
+	// the sort key of a row: a null is a null, whether its group is absent or present
+	sortKey := func(r c09Row) string {
+		r.GNull = [3]bool{}
+		return r.keyText(n)
+	}
 	have := map[string]bool{}
 	for _, r := range out {
-		have[r.keyText(n)] = true
+		have[sortKey(r)] = true
 	}
 	for i := range c.Inputs {
 		for j, r := range c.Inputs[i] {
-			if !have[r.keyText(n)] {
+			if !have[sortKey(r)] {
 				return "dedupe-lost-key", fmt.Sprintf("no output row has the sort key %s of input %d row %d", r.keyText(n), i, j)
 			}
 		}
@@ -1126,6 +1181,27 @@ func c09Check(ctx *core.Ctx, c *c09Case, p *c09Pending) {
 	ctx.Hist("total-rows", c09Bucket(total))
 	ctx.Hist("nulls", strconv.FormatBool(nulls))
 	ctx.Hist("key-columns", fmt.Sprintf("%d/merge-by-%d", len(c.Cols), c.MCols))
+	{
+		nest, kinds := "top-level", [3]bool{}
+		for j, col := range c.Cols {
+			if col.Wrap != 0 {
+				nest = "in-group"
+			}
+			for _, in := range c.Inputs {
+				for _, r := range in {
+					if r.GNull[j] {
+						kinds[0] = true
+					} else if r.Null[j] && col.Wrap == 1 {
+						kinds[1] = true
+					}
+				}
+			}
+		}
+		if nest != "top-level" {
+			nest += fmt.Sprintf(" group-absent=%v leaf-null-in-present-group=%v", kinds[0], kinds[1])
+		}
+		ctx.Hist("key-nesting", nest)
+	}
 	detail := func() map[string]any {
 		var o []string
 		for _, r := range out {
@@ -1320,6 +1396,55 @@ func c09GenInputs(r *rand.Rand, cols []c09Col, k int, pattern string, lens []int
 	return inputs
 }
 
+// key columns below groups: one case in four nests some of its key columns in groups (c09Col.Wrap).
+// Under an optional group a nullable key has two kinds of null rows (group absent, def 0; group present
+// and leaf null, def 1 of 2), a required key becomes nullable through its group (def 0 of 1). The null
+// rows of both kinds compare equal, so the inputs stay sorted; inputs whose required key gained nulls
+// are sorted again.
+func c09WrapKeys(r *rand.Rand, c *c09Case) {
+	if r.Intn(4) != 0 {
+		return
+	}
+	resort := false
+	for j := range c.Cols {
+		col := &c.Cols[j]
+		switch r.Intn(4) {
+		case 0:
+			continue
+		case 1:
+			col.Wrap = 2
+			continue
+		}
+		col.Wrap = 1
+		gain := 0 // a required key under an optional group: one row in `gain` has the group absent
+		if !col.Opt && r.Intn(2) == 0 {
+			gain = []int{2, 5, 20}[r.Intn(3)]
+			col.NF = r.Intn(2) == 0
+			resort = true
+		}
+		for i := range c.Inputs {
+			kind := r.Intn(3) // the null keys of this input: 0 = leaf null in a present group, 1 = group absent, 2 = both
+			for s := range c.Inputs[i] {
+				row := &c.Inputs[i][s]
+				switch {
+				case row.Null[j]:
+					row.GNull[j] = kind == 1 || (kind == 2 && r.Intn(2) == 0)
+				case gain > 0 && r.Intn(gain) == 0:
+					row.K[j], row.Null[j], row.GNull[j] = 0, true, true
+				}
+			}
+		}
+	}
+	if resort {
+		for i, rows := range c.Inputs {
+			sort.SliceStable(rows, func(a, b int) bool { return c09Cmp(c.Cols, len(c.Cols), rows[a], rows[b]) < 0 })
+			for s := range rows {
+				rows[s].Inp, rows[s].Seq = int32(i), int32(s)
+			}
+		}
+	}
+}
+
 var c09Patterns = []string{"disjoint", "touching", "nested", "identical", "staggered", "random"}
 
 func c09GenCase(r *rand.Rand) *c09Case {
@@ -1362,6 +1487,7 @@ func c09GenCase(r *rand.Rand) *c09Case {
 	}
 	c.Inputs = c09GenInputs(r, c.Cols, k, c.Pattern, lens, nullRate)
 	c.Lists = r.Intn(3) == 0
+	c09WrapKeys(r, c)
 	c09GenSeeks(r, c)
 	return c
 }
@@ -1453,6 +1579,7 @@ func c09GenRefineCase(r *rand.Rand) *c09Case {
 	}
 	c.Inputs = inputs
 	c.Lists = r.Intn(3) == 0
+	c09WrapKeys(r, c)
 	c09GenSeeks(r, c)
 	return c
 }
@@ -1530,6 +1657,7 @@ func c09GenCompoundRefineCase(r *rand.Rand) *c09Case {
 	}
 	c.Inputs = inputs
 	c.Lists = r.Intn(3) == 0
+	c09WrapKeys(r, c)
 	c09GenSeeks(r, c)
 	return c
 }
@@ -1582,13 +1710,15 @@ func c09GenNestedCase(r *rand.Rand, big bool) *c09Case {
 			c.Inputs = c09GenInputs(r, c.Cols, k, c.Pattern, lens, nullRate)
 		}
 		c.Lists = r.Intn(4) == 0
+		c09WrapKeys(r, c)
 	}
 	c.Pattern = "nested-" + c.Pattern
 	c.Nest = c09GenTree(r, len(c.Inputs)).text()
 	return c
 }
 
-// input 0 spans [0, 100*k]; input i > 0 is an island [100*i, 100*i+w] inside it
+// input 0 spans [0, 100*k]; input i > 0 is an island [100*i, 100*i+w] inside it, one in four an outlier
+// outside of it
 func c09GenIslands(r *rand.Rand, cols []c09Col, k int, lens []int, nullRate int) [][]c09Row {
 	inputs := make([][]c09Row, k)
 	for i := 0; i < k; i++ {
@@ -1596,6 +1726,15 @@ func c09GenIslands(r *rand.Rand, cols []c09Col, k int, lens []int, nullRate int)
 		if i > 0 {
 			lo = int64(100*i) + r.Int63n(20)
 			hi = lo + r.Int63n(60)
+			// an outlier: an island off the shore of the wide input, below or above its range. An inner merge
+			// of the wide input, an island and an outlier is a sequence of segments one of which is a
+			// loser-tree merge (its pages, listed member after member, are not in the order of its rows)
+			switch r.Intn(8) {
+			case 0:
+				lo, hi = lo-int64(100*k+50), hi-int64(100*k+50)
+			case 1:
+				lo, hi = lo+int64(100*k+50), hi+int64(100*k+50)
+			}
 		}
 		rows := make([]c09Row, lens[i])
 		for j := range rows {
@@ -2308,7 +2447,7 @@ func c09DedupeChecks(ctx *core.Ctx, r *rand.Rand, d *drv.Driver, p *c09Pending, 
 
 // ---------------------------------------------------------------- replay of a recorded case
 
-var c09CanonRe = regexp.MustCompile(`^((?:col\(opt=\w+,desc=\w+,nf=\w+\) )+)mcols=(\d+) storage=(\w+) pagebuf=(\d+) batches=\[([\d ]*)\] dedupe=(\w+) path=(\w+) lists=(\w+) seeks=\[([\d ]*)\] (?:nest=(\S+) )?inputs=(.*)$`)
+var c09CanonRe = regexp.MustCompile(`^((?:col\(opt=\w+,desc=\w+,nf=\w+(?:,wrap=\d)?\) )+)mcols=(\d+) storage=(\w+) pagebuf=(\d+) batches=\[([\d ]*)\] dedupe=(\w+) path=(\w+) lists=(\w+) seeks=\[([\d ]*)\] (?:nest=(\S+) )?inputs=(.*)$`)
 
 // c09ParseCanon rebuilds a case from its canonical text (the "case" field of a failure detail)
 func c09ParseCanon(text string) (*c09Case, error) {
@@ -2317,8 +2456,9 @@ func c09ParseCanon(text string) (*c09Case, error) {
 		return nil, errors.New("not a canonical C09 case")
 	}
 	c := &c09Case{Storage: m[3], Path: m[7], Pattern: "replay", Dedupe: m[6] == "true", Lists: m[8] == "true"}
-	for _, cm := range regexp.MustCompile(`col\(opt=(\w+),desc=(\w+),nf=(\w+)\)`).FindAllStringSubmatch(m[1], -1) {
-		c.Cols = append(c.Cols, c09Col{Opt: cm[1] == "true", Desc: cm[2] == "true", NF: cm[3] == "true"})
+	for _, cm := range regexp.MustCompile(`col\(opt=(\w+),desc=(\w+),nf=(\w+)(?:,wrap=(\d))?\)`).FindAllStringSubmatch(m[1], -1) {
+		wrap, _ := strconv.Atoi(cm[4])
+		c.Cols = append(c.Cols, c09Col{Opt: cm[1] == "true", Desc: cm[2] == "true", NF: cm[3] == "true", Wrap: wrap})
 	}
 	c.MCols, _ = strconv.Atoi(m[2])
 	c.PageBuf, _ = strconv.Atoi(m[4])
@@ -2344,6 +2484,8 @@ func c09ParseCanon(text string) (*c09Case, error) {
 				for cidx, vt := range strings.Split(rt, ";") {
 					if vt == "n" {
 						row.Null[cidx] = true
+					} else if vt == "N" {
+						row.Null[cidx], row.GNull[cidx] = true, true
 					} else {
 						row.K[cidx], _ = strconv.ParseInt(vt, 10, 64)
 					}
@@ -2362,12 +2504,29 @@ func c09ParseCanon(text string) (*c09Case, error) {
 // ---------------------------------------------------------------- entry point
 
 func RunC09(ctx *core.Ctx) {
-	ctx.SetRule("k in 0..9 sorted inputs (empty, disjoint, touching, nested, identical, staggered, random key ranges; duplicates within and across inputs; asc/desc; nullable keys nulls first/last; one to three key columns, merge by a prefix or by all; optionally a repeated payload column (lists of 0-4 values) that sorts before the key columns by name; forward SeekToRow histories on the merged rows; large compound-key files whose first key column is shared by many rows across row-group and page boundaries) as sorted Buffers and as files (PageBufferSize 1..1MiB, with page index) x read batch sizes 1..300 x MergeRowGroups.Rows / MergeRowReaders / Writer.WriteRowGroup / CopyRows, with and without DropDuplicatedRows; trees of nested merges (the result of a merge as an input of another, depth <= 3, MergeRowGroups and MergeRowReaders); chunked-source MergeRowReaders runs, also with sources answering (0, nil), compared call by call with the Lean mirror; runLength and DedupeRowReader against mirror and spec; exhaustive small scope. Distinct by canonical case text, non-trivial = at least two non-empty inputs (merges) / at least two rows or batches (runLength, dedupe)")
+	ctx.SetRule("k in 0..9 sorted inputs (empty, disjoint, touching, nested, identical, staggered, random key ranges; duplicates within and across inputs; asc/desc; nullable keys nulls first/last; one to three key columns, merge by a prefix or by all; key columns as top-level leaves or as leaves of optional / required groups (a null key with its group absent or with the group present); optionally a repeated payload column (lists of 0-4 values) that sorts before the key columns by name; forward SeekToRow histories on the merged rows; large compound-key files whose first key column is shared by many rows across row-group and page boundaries) as sorted Buffers and as files (PageBufferSize 1..1MiB, with page index) x read batch sizes 1..300 x MergeRowGroups.Rows / MergeRowReaders / Writer.WriteRowGroup / CopyRows, with and without DropDuplicatedRows; trees of nested merges (the result of a merge as an input of another, depth <= 3, MergeRowGroups and MergeRowReaders); chunked-source MergeRowReaders runs, also with sources answering (0, nil), compared call by call with the Lean mirror; runLength and DedupeRowReader against mirror and spec; exhaustive small scope. Distinct by canonical case text, non-trivial = at least two non-empty inputs (merges) / at least two rows or batches (runLength, dedupe)")
 
 	// F12 as a fixed corpus-like case so that it is reported deterministically
 	fixed := []*c09Case{
 		{Cols: []c09Col{{Opt: true}}, MCols: 1, Storage: "buffer", PageBuf: 4096, Batches: []int{10}, Path: "rows", Pattern: "fixed",
 			Inputs: [][]c09Row{{{K: [3]int64{10}}, {Null: [3]bool{true}, Seq: 1}}, {{K: [3]int64{17}, Inp: 1}, {K: [3]int64{17}, Inp: 1, Seq: 1}, {K: [3]int64{18}, Inp: 1, Seq: 2}}}},
+	}
+	// F12 on a key nested in an optional group: the null keys of the first buffer have their group present
+	// (definition level 1 of 2), or absent (0 of 2)
+	for _, gnull := range []bool{false, true} {
+		for _, nf := range []bool{false, true} {
+			other := int64(17)
+			if nf {
+				other = 3
+			}
+			fixed = append(fixed, &c09Case{Cols: []c09Col{{Opt: true, NF: nf, Wrap: 1}}, MCols: 1, Storage: "buffer", PageBuf: 4096, Batches: []int{10}, Path: "rows", Pattern: "fixed-nested-key",
+				Inputs: [][]c09Row{{{K: [3]int64{10}}, {Null: [3]bool{true}, GNull: [3]bool{gnull}, Seq: 1}}, {{K: [3]int64{other}, Inp: 1}, {K: [3]int64{other}, Inp: 1, Seq: 1}, {K: [3]int64{other + 1}, Inp: 1, Seq: 2}}}})
+			if nf {
+				in := fixed[len(fixed)-1].Inputs[0]
+				in[0], in[1] = in[1], in[0]
+				in[0].Seq, in[1].Seq = 0, 1
+			}
+		}
 	}
 	// the minimal input of the cut-lookup defect (mixed page with nulls), deterministic as well
 	{
@@ -2399,6 +2558,11 @@ func RunC09(ctx *core.Ctx) {
 		for _, path := range []string{"rows", "write"} {
 			fixed = append(fixed, &c09Case{Cols: []c09Col{{}}, MCols: 1, Storage: "buffer", PageBuf: 4096, Batches: []int{7}, Path: path, Pattern: "fixed-nested",
 				Nest: "[[0,1],2]", Inputs: [][]c09Row{mk(0, 0, 10, 20, 30, 40, 50, 60, 70, 80, 90, 100), mk(1, 50, 55, 60), mk(2, 70, 75, 80)}})
+			// the same behind a disjoint member: the inner result is a sequence of segments [X, merge(A, B)]
+			for _, storage := range []string{"buffer", "file"} {
+				fixed = append(fixed, &c09Case{Cols: []c09Col{{}}, MCols: 1, Storage: storage, PageBuf: 4096, Batches: []int{7}, Path: path, Pattern: "fixed-nested",
+					Nest: "[[0,1,2],3]", Inputs: [][]c09Row{mk(0, -30, -20, -10), mk(1, 0, 10, 20, 30, 40, 50, 60, 70, 80, 90, 100), mk(2, 50, 55, 60), mk(3, 70, 75, 80)}})
+			}
 		}
 	}
 	for _, c := range fixed {
